@@ -311,9 +311,9 @@ def init (c : Cfg) : Sys :=
   { a := Ep.init c.aSendMiu c.aRecvMiu c.aSendWin c.aRecvWin,
     b := Ep.init c.bSendMiu c.bRecvMiu c.bSendWin c.bRecvWin, wab := [], wba := [] }
 
-/-- what a correct CONNECT / CC handshake guarantees -/
+/-- what a correct CONNECT / CC handshake guarantees (RW 0 - the peer may never send - up to 15) -/
 def Cfg.ok (c : Cfg) : Prop :=
-  1 ≤ c.aRecvWin ∧ c.aRecvWin ≤ 15 ∧ 1 ≤ c.bRecvWin ∧ c.bRecvWin ≤ 15 ∧
+  c.aRecvWin ≤ 15 ∧ c.bRecvWin ≤ 15 ∧
   c.aSendWin = c.bRecvWin ∧ c.bSendWin = c.aRecvWin ∧
   c.aSendMiu ≤ c.bRecvMiu ∧ c.bSendMiu ≤ c.aRecvMiu
 
